@@ -151,6 +151,9 @@ class SArr:
                 plan.append(("int", pos))
             else:
                 raise NotImplementedError(f"SArr index element {ind!r}")
+        takes = [k for k, p in enumerate(plan) if p[0] == "take"]
+        if len(takes) >= 2:
+            return self._pointwise(plan, takes, new_shape, index)
         src = self
 
         def at(idx, plan=tuple(plan), src=src):
@@ -171,6 +174,46 @@ class SArr:
         if any(p[0] == "take" for p in plan):
             return self._derive(new_shape, at)
         return self._derive(new_shape, at, struct=self._index_struct(plan, index, new_shape))
+
+    def _pointwise(self, plan, takes, new_shape, index):
+        """NumPy advanced indexing with two or more 1-d integer arrays: they are broadcast together and walked point by
+        point; the points axis replaces the indexed axes where they stood if they are adjacent (integers count as advanced
+        indices), and moves to the front otherwise.  None entries are not combined with this form."""
+        if any(i is None for i in index):
+            raise core.Unsupported("None together with several integer-array indices")
+        n = max(len(plan[k][1]) for k in takes)
+        for k in takes:
+            if len(plan[k][1]) not in (1, n):
+                raise IndexError("shape mismatch: indexing arrays could not be broadcast together")
+        adv = [k for k, p in enumerate(plan) if p[0] in ("take", "int")]
+        adjacent = adv == list(range(adv[0], adv[-1] + 1))
+        # output axes: the slices in order, with the points axis inserted
+        slice_axes = [k for k, p in enumerate(plan) if p[0] == "slice"]
+        pts_at = sum(1 for k in slice_axes if k < adv[0]) if adjacent else 0
+        lens = {k: new_shape[plan[k][3]] for k in slice_axes}
+        out_axes = [("s", k) for k in slice_axes]
+        out_axes.insert(pts_at, ("p", None))
+        shape = [n if kind == "p" else lens[k] for kind, k in out_axes]
+        src = self
+
+        def at(idx, plan=tuple(plan), out_axes=tuple(out_axes), src=src, n=n):
+            where = {k: j for j, (kind, k) in enumerate(out_axes) if kind == "s"}
+            pj = idx[[j for j, (kind, _k) in enumerate(out_axes) if kind == "p"][0]]
+            pos = []
+            for k, p in enumerate(plan):
+                if p[0] == "int":
+                    pos.append(_z(p[1]))
+                elif p[0] == "take":
+                    vals = p[1] if len(p[1]) == n else p[1] * n
+                    e = _z(vals[-1])
+                    for j in range(n - 2, -1, -1):
+                        e = z3.If(pj == j, _z(vals[j]), e)
+                    pos.append(e)
+                else:
+                    pos.append(_z(p[1]) + _z(p[2]) * idx[where[k]])
+            return src._at(tuple(pos))
+
+        return self._derive(shape, at)
 
     def _index_struct(self, plan, index, new_shape):
         st = self.struct
@@ -752,10 +795,23 @@ _NP_FUNCS = dict(
     swapaxes=lambda a, i, j: _swapaxes(a, i, j),
     repeat=lambda a, repeats, axis=None: _repeat(a, repeats, axis),
     take=lambda a, indices, axis=None, **k: _take(a, indices, axis),
+    empty_like=lambda a, dtype=None, order="K", subok=True, shape=None: _empty_like(a, shape),
     sliding_window_view=lambda x, window_shape, axis=None, **k: _sliding_window_view(x, window_shape, axis),
     cumsum=lambda a, axis=None, dtype=None, out=None: a.accumulate(axis, "add"),
     sum=lambda a, axis=None, dtype=None, out=None, keepdims=False, **k: a.reduce_axis(axis, "add", keepdims),
 )
+
+
+_EMPTY = [0]
+
+
+def _empty_like(a, shape=None):
+    """np.empty_like: a mutable array of the given shape with arbitrary content (a fresh uninterpreted function)"""
+    shape = tuple(a.shape if shape is None else ((shape,) if not isinstance(shape, (tuple, list)) else shape))
+    _EMPTY[0] += 1
+    f = z3.Function(f"uninit_{_EMPTY[0]}", *([z3.IntSort()] * len(shape) + [z3.RealSort()])) if shape else None
+    c = z3.Real(f"uninit_{_EMPTY[0]}") if not shape else None
+    return MArr(shape, (lambda idx, f=f: f(*idx)) if shape else (lambda idx, c=c: c), a.dtype, a.log)
 
 
 def _sliding_window_view(x, window_shape, axis=None):
@@ -959,6 +1015,15 @@ class MArr(SArr):
                 if self.log is not None:
                     self.log.add("assignment integer index in range", core._wrapb(z3.And(_z(ind) >= -_z(n), _z(ind) < _z(n))))
                 sel.append(("int", core._ite(ind < 0, ind + n, ind)))
+            elif isinstance(ind, (list, np.ndarray)) and not isinstance(ind, SArr) and not any(e[0] == "list" for e in sel):
+                vals = np.asarray(ind).tolist() if isinstance(ind, np.ndarray) else list(ind)
+                if any(isinstance(v, (list, tuple, bool, np.bool_)) for v in vals):
+                    raise core.Unsupported("assignment index: only 1-d integer arrays")
+                if self.log is not None:
+                    for v in vals:
+                        self.log.add("assignment array index entry in range", core._wrapb(z3.And(_z(v) >= -_z(n), _z(v) < _z(n))))
+                sel.append(("list", tuple(core._ite(v < 0, v + n, v) for v in vals), len(lens)))
+                lens.append(len(vals))
             else:
                 raise core.Unsupported(f"assignment index element {ind!r}")
         if not isinstance(value, SArr):
@@ -982,6 +1047,19 @@ class MArr(SArr):
             for p, e in zip(pos, sel):
                 if e[0] == "int":
                     conds.append(p == _z(e[1]))
+                    continue
+                if e[0] == "list":
+                    # NumPy assigns in order: the last entry naming a position wins
+                    vals = e[1]
+                    if not vals:
+                        conds.append(z3.BoolVal(False))
+                        idx[e[2]] = z3.IntVal(0)
+                        continue
+                    conds.append(z3.Or(*[p == _z(v) for v in vals]))
+                    sel_j = z3.IntVal(0)
+                    for j2, v in enumerate(vals):
+                        sel_j = z3.If(p == _z(v), z3.IntVal(j2), sel_j)
+                    idx[e[2]] = sel_j
                     continue
                 _k, a, b, s_, j = e
                 a, b = _z(a), _z(b)
